@@ -231,6 +231,9 @@ func runHistory(e *ev.Env, c *ev.Case, cf conf, steps []step, fill bool) *rig {
 		}
 		q := &st.Q
 		g.do(q)
+		if q.Hung {
+			return g
+		}
 		if q.Panic != "" {
 			class := g.panicClass(q)
 			e.Eval(1)
